@@ -158,7 +158,9 @@ type c14Scn struct {
 	P      types.SpendPolicy
 	Height uint64
 	Median int64 // unix seconds
-	SigH   types.Hash256
+	// MedianNs: nanoseconds within the second (Go-vs-oracle cases only; the model is second-resolution)
+	MedianNs int64
+	SigH     types.Hash256
 	Sigs   []types.Signature
 	Pres   [][32]byte
 	Tag    string // generator family + mutation (for the distribution)
@@ -190,6 +192,9 @@ func (s *c14Scn) line(op string, keys []types.PublicKey, valid [][2]int) string 
 		}
 		v = strings.Join(parts, ",")
 	}
+	if s.MedianNs != 0 {
+		op = fmt.Sprintf("%s+%dns", op, s.MedianNs)
+	}
 	return fmt.Sprintf("%s %d %d %s %s %s %s %s %s", op, s.Height, s.Median, hex.EncodeToString(s.SigH[:]), c14Show(s.P),
 		c14HexList(s.Sigs, func(x types.Signature) []byte { return x[:] }),
 		c14HexList(s.Pres, func(x [32]byte) []byte { return x[:] }),
@@ -204,6 +209,10 @@ func c14ParseLine(l string) (*c14Scn, error) {
 	}
 	var s c14Scn
 	var err error
+	if i := strings.IndexByte(f[0], '+'); i >= 0 {
+		fmt.Sscanf(f[0][i:], "+%dns", &s.MedianNs)
+		s.NoModel = true
+	}
 	if s.Height, err = strconv.ParseUint(f[1], 10, 64); err != nil {
 		return nil, err
 	}
